@@ -3,7 +3,7 @@ const FILEPATH = '.+?';
 const LINE = '\\d+';
 const COL = '\\d+';
 const MESSAGE = '.+?';
-const KIND = '.+?';
+const KIND = '[^\\[\\]]+'; // Kind never contains brackets. Message may contain them
 
 let regexp = '^E*(F)E*:E*(L)E*:E*(C)E*: E*(M)E* \\[(K)\\]$';
 regexp = regexp.replaceAll('E', ESCAPE);
